@@ -210,4 +210,33 @@ inductive ChalEffect
   | delete (user : Str)           -- delete(state.localAuthData, username)
 deriving DecidableEq, Repr
 
+/-! ### cmd/keymasterd `VIPPollCheckHandler` -/
+
+/-- `pushPollTransaction`: whom a VIP push was sent to, under which transaction id (expiry read through `expired`) -/
+structure pushPollTransaction where
+  ExpiresAt : Nat
+  Username : Str
+  TransactionID : Str
+deriving DecidableEq, Repr
+
+inductive PollEffect
+  | fail (status : Nat)                      -- writeFailureResponse
+  | askVip (transactionID : Str)             -- VipPushHasBeenApproved(id): the VIP service is asked
+  | upgrade (user : Str) (level : Nat)       -- updateAuthCookieAuthlevel(w, r, user, level)
+  | publish (user : Str)                     -- the audit event
+  | status (code : Nat)                      -- w.WriteHeader
+deriving DecidableEq, Repr
+
+structure VipPollExt where
+  /-- `sendFailureToClientIfLocked`: true = the server is sealed (and the helper wrote the 500 itself) -/
+  locked : Bool
+  parseForm : Option Err
+  checkAuth : Nat → authInfo × Option Err
+  /-- the value of the (unauthenticated) `vip_push_cookie`, or the error of `r.Cookie` -/
+  pollCookie : Str × Option Err
+  transaction : Str → pushPollTransaction × Bool
+  expired : pushPollTransaction → Bool
+  approved : Str → Bool × Option Err
+  upgradeResult : Str → Nat → Str × Option Err
+
 end KM.GoTypes
